@@ -292,6 +292,13 @@ def coq_eval(prop_id, imports, shards, timeout=900):
     `Eval vm_compute in ...` whose printed value is a list of N.  Returns list (per shard) of lists of ints
     (concatenating all Evals of the shard), or raises RuntimeError with the coqc output."""
     os.makedirs(SCRATCH, exist_ok=True)
+    # the compiled files the cases import must be consistent with each other and with the regenerated Generated/*.v of this run
+    # (a regenerated constant recompiles Consts.vo; a tie that was not among the build targets would then be stale)
+    mods = re.findall(r"\b((?:Lib|Generated|Model|Spec|Proofs|Tie|Properties)\.[A-Za-z0-9_]+)\b", imports)
+    if mods:
+        ok, log = coq_build(sorted(set(m.replace(".", "/") + ".vo" for m in mods)))
+        if not ok:
+            raise RuntimeError("the files the cases import do not build:\n" + log[-1500:])
     d = os.path.join(SCRATCH, "eval_%s_%d" % (prop_id, os.getpid()))
     shutil.rmtree(d, ignore_errors=True)
     os.makedirs(d)
